@@ -1,27 +1,35 @@
-//! C04: script encoding and decoding are inverse and canonical (lexer + decoder part; the size
-//! part `script_size == encoded length` belongs to C09).
+//! C04: script encoding and decoding are inverse and canonical (lexer + decoder, all decode entry
+//! points, predicted script size).
 //!
-//! VALID stream — every enumerated / random / corpus fragment, in each context:
+//! VALID stream — every enumerated / random / corpus fragment `from_ast` accepts (EVERY base type),
+//! in each context:
+//!   C encode / C scriptsize      library encoding and `script_size()` vs the Lean models
+//!   J size <ctx> <ast> <size>    `script_size()` = length of the Lean encoding
 //!   C lex <hex>                  library `lex::lex` on the encoding  vs Lean `lex`
 //!   J toks <ctx> <ast> <tokens>  library tokens = structural `tokens` of the Lean model (T2a)
-//!   C decode <ctx> <hex>         library `decode_consensus`          vs Lean `decodeScript`
-//!   J rt <ctx> <ast> <hex> <decoded> <reenc> <ty0> <ty1>
-//!                                the library's own round trip judged by Lean: decoded AST is
-//!                                the decoder normal form of the original, byte-identical
-//!                                re-encoding, identical type
-//!   J canon <ctx[:sane]> <hex> <ERR | re-encoded hex>   accepted ⇒ re-encodes to the input
+//!   C decode <ctx> <hex> <inv>   library `decode_consensus`          vs Lean `decodeScript`
+//!   C decodep <ctx> <consensus|max> <hex> <inv>
+//!                                `decode_with_validation_params(.., &Ctx::CONSENSUS | &MAX)` vs `decodeScriptP`
+//!   J rt <ctx> <ast> <hex> <entry> <decoded> <reenc> <ty0> <ty1>
+//!                                the library's own round trip judged by Lean (decoded AST = decoder
+//!                                normal form of the original, byte-identical re-encoding, identical
+//!                                type): through `decode_consensus` and `params-consensus` when the
+//!                                miniscript is consensus-valid in the context, and through
+//!                                `params-max` for EVERY accepted miniscript that is not of base W
+//!   J canon <ctx[:entry]> <hex> <ERR | re-encoded hex>   accepted ⇒ re-encodes to the input
+//!   J tapfull <ast> <hex> <decoded>   Taproot over FULL keys: script = encoding of the x-only
+//!                                translation, decoding returns that translation
 //! MALFORMED stream — mutations of valid scripts, non-minimal pushes / numbers / verifies,
-//! key↔hash swaps, truncation, trailing garbage, deep nesting, huge multi: the same C lines
-//! plus `J canon`, `J lexcanon` (accepted ⇒ canonical serialisation of its tokens) and
-//! `J nopanic` (every library call runs under `catch_unwind`).
+//! key↔hash swaps, truncation, trailing garbage, deep nesting, huge multi: C lex, C decode,
+//! C decodep (both parameter sets), `J canon` for all four entry points, `J lexcanon`
+//! (accepted ⇒ canonical serialisation of its tokens) and `J nopanic` (`catch_unwind`).
 //!
-//! Atoms.  The Lean decoder names keys / hashes by reverse lookup in the `D` tables.  Besides
-//! `ast::emit_defs` this file registers (a) a raw-pkh atom for EVERY key id, and (b) every known
-//! 20/32-byte string in EVERY role it could be parsed in (a hash value as x-only key, a key as
-//! sha256 value, …).  Key ids >= 900 register byte strings that the library rejects as keys.
-//! `C decode` is only emitted when every 20/32/33/65-byte push of the script (as lexed by the
-//! library) is a registered string, so the model never has to guess whether unknown bytes are a
-//! valid curve point; otherwise only the J lines are written (`skip:unknown-atom` in the stats).
+//! Atoms.  The Lean decoder names keys / hashes by reverse lookup in the `D` tables; a 20/32/33/65-
+//! byte push that is not registered becomes an OPAQUE atom `x<hex>` on both sides, so `C decode` /
+//! `C decodep` are emitted for EVERY input.  The only fact the model cannot compute is whether an
+//! unknown 32/33/65-byte string is a curve point: `<inv>` lists the key-like pushes of the input
+//! that libsecp (`from_slice`, an oracle, not code under test) rejects.  Key ids >= 900 register
+//! byte strings that the library rejects as keys.
 use std::collections::{HashMap, HashSet};
 use std::panic::{catch_unwind, AssertUnwindSafe};
 
@@ -128,48 +136,64 @@ pub trait CKey: KeyOf + KeyBytes + ParseableKey {}
 impl CKey for PublicKey {}
 impl CKey for XOnlyPublicKey {}
 
-/// library AST -> neutral AST by reverse lookup; `None` = some atom is not in the tables
-fn to_node<Pk: CKey, Ctx: ScriptContext>(u: &Universe, ms: &Miniscript<Pk, Ctx>) -> Option<Node> {
-    let sub = |x: &Miniscript<Pk, Ctx>| -> Option<Box<Node>> { Some(Box::new(to_node(u, x)?)) };
-    let key = |k: &Pk| -> Option<u32> { u.keys.get(&k.key_bytes()).cloned().filter(|id| *id < 900) };
-    let keys = |it: &mut dyn Iterator<Item = &Pk>| -> Option<Vec<u32>> { it.map(|k| key(k)).collect() };
-    let h = |kind: HK, v: &[u8]| -> Option<u32> { u.hashes.get(&(kind, v.to_vec())).cloned() };
-    Some(match &ms.node {
-        Terminal::True => Node::True,
-        Terminal::False => Node::False,
-        Terminal::PkK(k) => Node::PkK(key(k)?),
-        Terminal::PkH(k) => Node::PkH(key(k)?),
-        Terminal::RawPkH(hh) => Node::RawPkH(u.rawpkh.get(&hh.to_byte_array().to_vec()).cloned()?),
-        Terminal::After(n) => Node::After(n.to_consensus_u32()),
-        Terminal::Older(n) => Node::Older(n.to_consensus_u32()),
-        Terminal::Sha256(x) => Node::Hash(HK::Sha256, h(HK::Sha256, &x.to_byte_array())?),
-        Terminal::Hash256(x) => Node::Hash(HK::Hash256, h(HK::Hash256, &x.to_byte_array())?),
-        Terminal::Ripemd160(x) => Node::Hash(HK::Ripemd160, h(HK::Ripemd160, &x.to_byte_array())?),
-        Terminal::Hash160(x) => Node::Hash(HK::Hash160, h(HK::Hash160, &x.to_byte_array())?),
-        Terminal::Alt(x) => Node::Alt(sub(x)?),
-        Terminal::Swap(x) => Node::Swap(sub(x)?),
-        Terminal::Check(x) => Node::Check(sub(x)?),
-        Terminal::DupIf(x) => Node::DupIf(sub(x)?),
-        Terminal::Verify(x) => Node::Verify(sub(x)?),
-        Terminal::NonZero(x) => Node::NonZero(sub(x)?),
-        Terminal::ZeroNotEqual(x) => Node::ZeroNotEqual(sub(x)?),
-        Terminal::AndV(a, b) => Node::AndV(sub(a)?, sub(b)?),
-        Terminal::AndB(a, b) => Node::AndB(sub(a)?, sub(b)?),
-        Terminal::AndOr(a, b, c) => Node::AndOr(sub(a)?, sub(b)?, sub(c)?),
-        Terminal::OrB(a, b) => Node::OrB(sub(a)?, sub(b)?),
-        Terminal::OrD(a, b) => Node::OrD(sub(a)?, sub(b)?),
-        Terminal::OrC(a, b) => Node::OrC(sub(a)?, sub(b)?),
-        Terminal::OrI(a, b) => Node::OrI(sub(a)?, sub(b)?),
-        Terminal::Thresh(t) => {
-            let mut v = vec![];
-            for x in t.iter() { v.push(to_node(u, x)?); }
-            Node::Thresh(t.k(), v)
+/// library AST -> wire text by reverse lookup of the atoms; a key / hash that is not in the
+/// tables prints as the OPAQUE atom `x<hex of its bytes>` (same convention as the Lean driver)
+fn to_wire<Pk: CKey, Ctx: ScriptContext>(u: &Universe, ms: &Miniscript<Pk, Ctx>) -> String {
+    let sub = |x: &Miniscript<Pk, Ctx>| -> String { to_wire(u, x) };
+    let opaque = |b: &[u8]| -> String { format!("x{}", hex(b)) };
+    let key = |k: &Pk| -> String { let b = k.key_bytes(); match u.keys.get(&b) { Some(id) if *id < 900 => id.to_string(), _ => opaque(&b) } };
+    let keys = |it: &mut dyn Iterator<Item = &Pk>| -> String { it.map(|k| key(k)).collect::<Vec<_>>().join(",") };
+    let h = |kind: HK, v: &[u8]| -> String { match u.hashes.get(&(kind, v.to_vec())) { Some(id) => id.to_string(), None => opaque(v) } };
+    match &ms.node {
+        Terminal::True => "1".into(),
+        Terminal::False => "0".into(),
+        Terminal::PkK(k) => format!("pk_k({})", key(k)),
+        Terminal::PkH(k) => format!("pk_h({})", key(k)),
+        Terminal::RawPkH(hh) => { let b = hh.to_byte_array().to_vec(); format!("raw_pkh({})", match u.rawpkh.get(&b) { Some(id) => id.to_string(), None => opaque(&b) }) }
+        Terminal::After(n) => format!("after({})", n.to_consensus_u32()),
+        Terminal::Older(n) => format!("older({})", n.to_consensus_u32()),
+        Terminal::Sha256(x) => format!("sha256({})", h(HK::Sha256, &x.to_byte_array())),
+        Terminal::Hash256(x) => format!("hash256({})", h(HK::Hash256, &x.to_byte_array())),
+        Terminal::Ripemd160(x) => format!("ripemd160({})", h(HK::Ripemd160, &x.to_byte_array())),
+        Terminal::Hash160(x) => format!("hash160({})", h(HK::Hash160, &x.to_byte_array())),
+        Terminal::Alt(x) => format!("a({})", sub(x)),
+        Terminal::Swap(x) => format!("s({})", sub(x)),
+        Terminal::Check(x) => format!("c({})", sub(x)),
+        Terminal::DupIf(x) => format!("d({})", sub(x)),
+        Terminal::Verify(x) => format!("v({})", sub(x)),
+        Terminal::NonZero(x) => format!("j({})", sub(x)),
+        Terminal::ZeroNotEqual(x) => format!("n({})", sub(x)),
+        Terminal::AndV(a, b) => format!("and_v({},{})", sub(a), sub(b)),
+        Terminal::AndB(a, b) => format!("and_b({},{})", sub(a), sub(b)),
+        Terminal::AndOr(a, b, c) => format!("andor({},{},{})", sub(a), sub(b), sub(c)),
+        Terminal::OrB(a, b) => format!("or_b({},{})", sub(a), sub(b)),
+        Terminal::OrD(a, b) => format!("or_d({},{})", sub(a), sub(b)),
+        Terminal::OrC(a, b) => format!("or_c({},{})", sub(a), sub(b)),
+        Terminal::OrI(a, b) => format!("or_i({},{})", sub(a), sub(b)),
+        Terminal::Thresh(t) => format!("thresh({},{})", t.k(), t.iter().map(|x| to_wire(u, x)).collect::<Vec<_>>().join(",")),
+        Terminal::Multi(t) => format!("multi({},{})", t.k(), keys(&mut t.iter())),
+        Terminal::SortedMulti(t) => format!("sortedmulti({},{})", t.k(), keys(&mut t.iter())),
+        Terminal::MultiA(t) => format!("multi_a({},{})", t.k(), keys(&mut t.iter())),
+        Terminal::SortedMultiA(t) => format!("sortedmulti_a({},{})", t.k(), keys(&mut t.iter())),
+    }
+}
+
+/// the key-like pushes of a token list that libsecp (an oracle, not code under test) rejects:
+/// the one fact about unknown byte strings the Lean model cannot compute
+fn rejected_keys(toks: &Option<Vec<Token>>) -> String {
+    let mut v: Vec<String> = vec![];
+    if let Some(ts) = toks {
+        for t in ts {
+            let bad = match t {
+                Token::Bytes32(b) => if XOnlyPublicKey::from_slice(&b[..]).is_err() { Some(hex(&b[..])) } else { None },
+                Token::Bytes33(b) => if PublicKey::from_slice(&b[..]).is_err() { Some(hex(&b[..])) } else { None },
+                Token::Bytes65(b) => if PublicKey::from_slice(&b[..]).is_err() { Some(hex(&b[..])) } else { None },
+                _ => None,
+            };
+            if let Some(h) = bad { if !v.contains(&h) { v.push(h); } }
         }
-        Terminal::Multi(t) => Node::Multi(t.k(), keys(&mut t.iter())?),
-        Terminal::SortedMulti(t) => Node::SortedMulti(t.k(), keys(&mut t.iter())?),
-        Terminal::MultiA(t) => Node::MultiA(t.k(), keys(&mut t.iter())?),
-        Terminal::SortedMultiA(t) => Node::SortedMultiA(t.k(), keys(&mut t.iter())?),
-    })
+    }
+    if v.is_empty() { "-".into() } else { v.join(",") }
 }
 
 /* ------------------------------------------------------------------ answers */
@@ -221,14 +245,21 @@ fn lib_lex(bytes: &[u8]) -> (String, Option<Vec<Token>>) {
 
 struct Dec { wire: String, reenc: Option<Vec<u8>>, ty: Option<String>, panicked: bool }
 
-fn lib_decode<Pk: CKey, Ctx: ScriptContext<Key = Pk>>(u: &Universe, bytes: &[u8], sane: bool) -> Dec {
+#[derive(Clone, Copy, PartialEq)]
+enum Mode { Consensus, Sane, ParamsConsensus, ParamsMax }
+
+fn lib_decode<Pk: CKey, Ctx: ScriptContext<Key = Pk>>(u: &Universe, bytes: &[u8], mode: Mode) -> Dec {
     let s = ScriptBuf::from_bytes(bytes.to_vec());
     let r = catch_unwind(AssertUnwindSafe(|| {
-        let d = if sane { Miniscript::<Pk, Ctx>::decode(&s) } else { Miniscript::<Pk, Ctx>::decode_consensus(&s) };
+        let d = match mode {
+            Mode::Consensus => Miniscript::<Pk, Ctx>::decode_consensus(&s),
+            Mode::Sane => Miniscript::<Pk, Ctx>::decode(&s),
+            Mode::ParamsConsensus => Miniscript::<Pk, Ctx>::decode_with_validation_params(&s, &Ctx::CONSENSUS),
+            Mode::ParamsMax => Miniscript::<Pk, Ctx>::decode_with_validation_params(&s, &miniscript::ValidationParams::MAX),
+        };
         d.map(|ms| {
             let re = ms.encode().into_bytes();
-            let wire = to_node(u, &ms).map(|n| n.wire()).unwrap_or_else(|| "UNKNOWN-ATOM".into());
-            (wire, re, ts(&ms.ty))
+            (to_wire(u, &ms), re, ts(&ms.ty))
         })
     }));
     match r {
@@ -244,53 +275,113 @@ fn emit_bytes<Pk: CKey, Ctx: ScriptContext<Key = Pk>>(out: &mut Out, u: &Univers
     let (lx, toks) = lib_lex(bytes);
     out.line(&format!("C lex {}", h), &lx);
     out.line(&format!("J lexcanon {} {}", h, lx), "ok");
-    let d = lib_decode::<Pk, Ctx>(u, bytes, false);
-    let known = toks.as_ref().map(|t| u.all_known(t)).unwrap_or(true);
-    if known {
-        out.line(&format!("C decode {} {}", ctx.name(), h), &d.wire);
-    } else {
-        out.count("skip:unknown-atom (C decode not emitted)");
-    }
+    let inv = rejected_keys(&toks);
+    if toks.as_ref().map(|t| !u.all_known(t)).unwrap_or(false) { out.count("inputs with opaque (unregistered) atoms, decoded by the model through opaque atoms"); }
     let verdict = |d: &Dec| match &d.reenc { Some(r) => script_hex(r), None => "ERR".to_string() };
-    let ds = lib_decode::<Pk, Ctx>(u, bytes, true);
+    let d = lib_decode::<Pk, Ctx>(u, bytes, Mode::Consensus);
+    out.line(&format!("C decode {} {} {}", ctx.name(), h, inv), &d.wire);
     out.line(&format!("J canon {} {} {}", ctx.name(), h, verdict(&d)), "ok");
+    let ds = lib_decode::<Pk, Ctx>(u, bytes, Mode::Sane);
     out.line(&format!("J canon {}:sane {} {}", ctx.name(), h, verdict(&ds)), "ok");
-    let p = lx == "PANIC" || d.panicked || ds.panicked;
+    // the explicit-parameter entry point, with the context's CONSENSUS set and with MAX
+    let dc = lib_decode::<Pk, Ctx>(u, bytes, Mode::ParamsConsensus);
+    out.line(&format!("C decodep {} consensus {} {}", ctx.name(), h, inv), &dc.wire);
+    out.line(&format!("J canon {}:params-consensus {} {}", ctx.name(), h, verdict(&dc)), "ok");
+    let dm = lib_decode::<Pk, Ctx>(u, bytes, Mode::ParamsMax);
+    out.line(&format!("C decodep {} max {} {}", ctx.name(), h, inv), &dm.wire);
+    out.line(&format!("J canon {}:params-max {} {}", ctx.name(), h, verdict(&dm)), "ok");
+    let p = lx == "PANIC" || d.panicked || ds.panicked || dc.panicked || dm.panicked;
     out.line(&format!("J nopanic {}:{} {} {}", ctx.name(), tag, h, if p { "PANIC" } else { "ok" }), "ok");
     let cls = if d.reenc.is_some() { "accepted".to_string() } else { d.wire.clone() };
     out.count(&format!("{} {}: {}", tag.split('/').next().unwrap_or(tag), ctx.name(), cls));
+    if dm.reenc.is_some() && d.reenc.is_none() { out.count(&format!("{} {}: accepted under MAX only", tag.split('/').next().unwrap_or(tag), ctx.name())); }
 }
 
-/// the valid stream for one AST
+/// the valid stream for one AST that `from_ast` accepts (any base type)
 fn emit_valid<Pk: CKey, Ctx: ScriptContext<Key = Pk>>(out: &mut Out, u: &Universe, ctx: CtxK, node: &Node, pool: &mut Vec<Vec<u8>>) {
     let ms = match ast::to_ms::<Pk, Ctx>(node) { Ok(m) => m, Err(_) => { out.count("valid: from_ast rejects (not emitted)"); return; } };
     let bytes = ms.encode().into_bytes();
     let h = script_hex(&bytes);
     let w = node.wire();
-    let (lx, _) = lib_lex(&bytes);
+    // encoding and predicted size
+    out.line(&format!("C encode {} {}", ctx.name(), w), &h);
+    out.line(&format!("C scriptsize {} {}", ctx.name(), w), &ms.script_size().to_string());
+    out.line(&format!("J size {} {} {}", ctx.name(), w, ms.script_size()), "ok");
+    let (lx, toks) = lib_lex(&bytes);
     out.line(&format!("C lex {}", h), &lx);
     out.line(&format!("J toks {} {} {}", ctx.name(), w, lx), "ok");
-    let d = lib_decode::<Pk, Ctx>(u, &bytes, false);
-    out.line(&format!("C decode {} {}", ctx.name(), h), &d.wire);
-    let consensus_ok = ms.validate(&Ctx::CONSENSUS);
-    match &consensus_ok {
+    let inv = rejected_keys(&toks);
+    let d = lib_decode::<Pk, Ctx>(u, &bytes, Mode::Consensus);
+    out.line(&format!("C decode {} {} {}", ctx.name(), h, inv), &d.wire);
+    let dc = lib_decode::<Pk, Ctx>(u, &bytes, Mode::ParamsConsensus);
+    out.line(&format!("C decodep {} consensus {} {}", ctx.name(), h, inv), &dc.wire);
+    let dm = lib_decode::<Pk, Ctx>(u, &bytes, Mode::ParamsMax);
+    out.line(&format!("C decodep {} max {} {}", ctx.name(), h, inv), &dm.wire);
+    let rt = |out: &mut Out, tag: &str, d: &Dec| {
+        let reenc = d.reenc.as_ref().map(|r| script_hex(r)).unwrap_or_else(|| "-".into());
+        out.line(&format!("J rt {} {} {} {} {} {} {} {}", ctx.name(), w, h, tag, d.wire, reenc, ts(&ms.ty), d.ty.clone().unwrap_or_else(|| "-".into())), "ok");
+    };
+    // the property's quantifier: accepted under the context's consensus parameters -> both
+    // consensus entry points must round-trip
+    match ms.validate(&Ctx::CONSENSUS) {
         Ok(()) => {
-            // the property's quantifier: accepted under the context's consensus parameters
-            let reenc = d.reenc.as_ref().map(|r| script_hex(r)).unwrap_or_else(|| "-".into());
-            out.line(&format!("J rt {} {} {} {} {} {} {}", ctx.name(), w, h, d.wire, reenc, ts(&ms.ty), d.ty.clone().unwrap_or_else(|| "-".into())), "ok");
+            rt(out, "decode_consensus", &d);
+            rt(out, "params-consensus", &dc);
             out.count(&format!("valid {}: consensus-valid, round trip judged", ctx.name()));
             if pool.len() < 4000 { pool.push(bytes.clone()); }
         }
         Err(e) => {
             let k = format!("{:?}", e);
             let k = k.split(|c: char| !c.is_alphanumeric()).next().unwrap_or("").to_string();
-            out.count(&format!("valid {}: not consensus-valid ({}), decoder answer {}", ctx.name(), k, if d.reenc.is_some() { "accepted" } else { d.wire.as_str() }));
+            out.count(&format!("valid {}: not consensus-valid ({}), round trip judged through MAX; decode_consensus answer {}", ctx.name(), k, if d.reenc.is_some() { "accepted" } else { d.wire.as_str() }));
         }
     }
-    let ds = lib_decode::<Pk, Ctx>(u, &bytes, true);
+    // every miniscript `from_ast` accepts round-trips through the permissive entry point,
+    // whatever its base type (a W fragment `a:X` / `s:X` is no script suffix the parser can start
+    // from: the decoder must refuse it or return a miniscript with the same bytes)
+    if ms.ty.corr.base != Base::W {
+        rt(out, "params-max", &dm);
+    } else {
+        let verdict = match &dm.reenc { Some(r) => script_hex(r), None => "ERR".to_string() };
+        out.line(&format!("J canon {}:params-max {} {}", ctx.name(), h, verdict), "ok");
+    }
+    let ds = lib_decode::<Pk, Ctx>(u, &bytes, Mode::Sane);
     let verdict = match &ds.reenc { Some(r) => script_hex(r), None => "ERR".to_string() };
     out.line(&format!("J canon {}:sane {} {}", ctx.name(), h, verdict), "ok");
-    out.line(&format!("J nopanic {}:valid {} {}", ctx.name(), h, if lx == "PANIC" || d.panicked || ds.panicked { "PANIC" } else { "ok" }), "ok");
+    let p = lx == "PANIC" || d.panicked || ds.panicked || dc.panicked || dm.panicked;
+    out.line(&format!("J nopanic {}:valid {} {}", ctx.name(), h, if p { "PANIC" } else { "ok" }), "ok");
+}
+
+/// Taproot miniscripts over FULL (02/03) keys: the encoder pushes the x-only form of every key,
+/// so the script is the encoding of the x-only translation and decoding yields x-only keys
+fn emit_tapfull(out: &mut Out, u: &Universe, node: &Node) {
+    use miniscript::Tap;
+    let ms = match ast::to_ms::<PublicKey, Tap>(node) { Ok(m) => m, Err(_) => { out.count("tapfull: from_ast rejects (not emitted)"); return; } };
+    let r = catch_unwind(AssertUnwindSafe(|| ms.encode().into_bytes()));
+    let bytes = match r { Ok(b) => b, Err(_) => { out.line(&format!("J nopanic tapfull {} PANIC", node.wire()), "ok"); return; } };
+    let d = lib_decode::<XOnlyPublicKey, Tap>(u, &bytes, Mode::ParamsMax);
+    out.line(&format!("J tapfull {} {} {}", node.wire(), script_hex(&bytes), d.wire), "ok");
+    out.line(&format!("J size tapfull {} {}", node.wire(), ms.script_size()), "ok");
+    out.count("tapfull: judged");
+}
+
+/// rename the keys of a neutral AST
+fn rekey(n: &Node, f: &dyn Fn(u32) -> u32) -> Node {
+    use Node::*;
+    let b = |x: &Node| Box::new(rekey(x, f));
+    let ks = |v: &Vec<u32>| v.iter().map(|k| f(*k)).collect::<Vec<_>>();
+    match n {
+        PkK(k) => PkK(f(*k)), PkH(k) => PkH(f(*k)),
+        Multi(k, v) => Multi(*k, ks(v)), SortedMulti(k, v) => SortedMulti(*k, ks(v)),
+        MultiA(k, v) => MultiA(*k, ks(v)), SortedMultiA(k, v) => SortedMultiA(*k, ks(v)),
+        Alt(x) => Alt(b(x)), Swap(x) => Swap(b(x)), Check(x) => Check(b(x)), DupIf(x) => DupIf(b(x)),
+        Verify(x) => Verify(b(x)), NonZero(x) => NonZero(b(x)), ZeroNotEqual(x) => ZeroNotEqual(b(x)),
+        AndV(x, y) => AndV(b(x), b(y)), AndB(x, y) => AndB(b(x), b(y)), OrB(x, y) => OrB(b(x), b(y)),
+        OrD(x, y) => OrD(b(x), b(y)), OrC(x, y) => OrC(b(x), b(y)), OrI(x, y) => OrI(b(x), b(y)),
+        AndOr(x, y, z) => AndOr(b(x), b(y), b(z)),
+        Thresh(k, xs) => Thresh(*k, xs.iter().map(|x| rekey(x, f)).collect()),
+        other => other.clone(),
+    }
 }
 
 /* ------------------------------------------------------------------ corpus */
@@ -302,8 +393,10 @@ fn corpus(ctx: CtxK) -> Vec<Node> {
     let spk = |i: usize| Node::Swap(Box::new(pk(i)));
     let mut v = vec![];
     // numbers at the script-number boundaries
-    for n in [1u32, 2, 15, 16, 17, 127, 128, 255, 256, 32767, 32768, 65535, 65536, 8388607, 8388608, 16777215, 16777216,
-              499_999_999, 500_000_000, 500_000_001, 0x7fff_fffe, 0x7fff_ffff] {
+    // (65541 = bit 16, 4194309 = type flag + 5, 8388609 = bit 23: bits outside the BIP68 mask must
+    // be pushed and read back unchanged - permanently in the quick tier)
+    for n in [1u32, 2, 15, 16, 17, 127, 128, 255, 256, 32767, 32768, 65535, 65536, 65541, 4194303, 4194304, 4194305, 4194309,
+              8388607, 8388608, 8388609, 16777215, 16777216, 499_999_999, 500_000_000, 500_000_001, 0x7fff_fffe, 0x7fff_ffff] {
         v.push(Node::After(n));
         v.push(Node::Older(n));
         v.push(Node::AndV(Box::new(Node::Verify(Box::new(pk(0)))), Box::new(Node::After(n))));
@@ -339,6 +432,18 @@ fn corpus(ctx: CtxK) -> Vec<Node> {
             let mut xs = vec![pk(0)];
             for i in 1..n { xs.push(spk(i)); }
             v.push(Node::Thresh(kk, xs));
+        }
+    }
+    // threshold values at the 1/2/3-byte script-number boundaries (needs that many children:
+    // only Taproot has room for them)
+    if ctx == CtxK::Tap {
+        for (n, kks) in [(129usize, [127usize, 128]), (257, [255, 256])] {
+            for kk in kks {
+                let mut xs = vec![pk(0)];
+                for i in 1..n { xs.push(spk(i)); }
+                v.push(Node::Thresh(kk, xs));
+                v.push(Node::MultiA(kk, (0..n).map(k).collect()));
+            }
         }
     }
     // multi / multi_a of many sizes
@@ -662,16 +767,10 @@ fn run_ctx<Pk: CKey, Ctx: ScriptContext<Key = Pk>>(out: &mut Out, u: &Universe, 
     for t in &frags {
         n += 1;
         t.node.count_frags(out);
-        if t.base == Base::B {
-            emit_valid::<Pk, Ctx>(out, u, ctx, &t.node, &mut pool);
-        } else {
-            // not a script on its own: the decoder must refuse it (or return a B miniscript with the same bytes)
-            if let Ok(ms) = ast::to_ms::<Pk, Ctx>(&t.node) {
-                let bytes = ms.encode().into_bytes();
-                let (lx, _) = lib_lex(&bytes);
-                out.line(&format!("J toks {} {} {}", ctx.name(), t.node.wire(), lx), "ok");
-                if rng.below(4) == 0 { emit_bytes::<Pk, Ctx>(out, u, ctx, &bytes, "nonB"); }
-            }
+        emit_valid::<Pk, Ctx>(out, u, ctx, &t.node, &mut pool);
+        if t.base != Base::B && rng.below(4) == 0 {
+            // not a script on its own: the consensus entry points must refuse it (or return a B miniscript with the same bytes)
+            if let Ok(ms) = ast::to_ms::<Pk, Ctx>(&t.node) { emit_bytes::<Pk, Ctx>(out, u, ctx, &ms.encode().into_bytes(), "nonB"); }
         }
     }
     // 2. random larger scripts
@@ -724,6 +823,18 @@ pub fn run(out: &mut Out, thorough: bool, seed: u64) {
     let mut n = 0u64;
     for ctx in CtxK::ALL {
         n += with_ctx!(ctx, run_ctx(out, &u, ctx, thorough, &mut rng));
+    }
+    // Taproot over FULL keys: key id 200+i is the x-only form of the compressed key i
+    {
+        let atoms = ast::default_atoms(CtxK::Tap, true);
+        let mut nodes: Vec<Node> = ast::enumerate(CtxK::Tap, &atoms, 2, if thorough { 40 } else { 8 }, &mut rng)
+            .into_iter().filter(|t| t.base != Base::W).map(|t| t.node).collect();
+        nodes.extend(corpus(CtxK::Tap).into_iter().filter(|x| x.size() < 60));
+        nodes.extend(seeds(CtxK::Tap));
+        for node in nodes {
+            n += 1;
+            emit_tapfull(out, &u, &rekey(&node, &|k| if k >= 200 { k - 200 } else { k }));
+        }
     }
     out.note("distinct_nontrivial", n.to_string());
     out.note("domain", "valid: all enumerated fragments (depth 3/4, quota-sampled) in 4 contexts + random large + corpus (numbers at script-number boundaries, all hash kinds, pk_h, thresh n<=40, multi n<=20, multi_a n<=999, and_v re-association cases); malformed: 1-3 byte edits, opcode edits, instruction delete/dup/swap, truncation, leading/trailing garbage, PUSHDATA1/2/4 for short data, padded/negative numbers, OP_n as data push, split/fused *VERIFY, key<->hash swaps, bad key prefixes, nesting depth 399..2000, multi/multi_a/thresh with k,n out of range".into());
